@@ -374,7 +374,11 @@ impl ParsedPacket {
         if !self.maybe_compressed {
             return Ok(());
         }
-        let dns_sector = DNSSector::new(self.packet.take().expect("self.packet is None"))?;
+        // `maybe_compressed` is cleared below: make sure that the packet really
+        // is uncompressed (a no-op after an in-place decompression), and keep
+        // `self` intact if anything fails.
+        let uncompressed = Compress::uncompress(self.packet())?;
+        let dns_sector = DNSSector::new(uncompressed)?;
         let parsed_packet = dns_sector.parse()?;
         self.offset_question = parsed_packet.offset_question;
         self.offset_answers = parsed_packet.offset_answers;
